@@ -246,6 +246,46 @@ example : (50 : ℝ) / 2 ≤ (-100) / 2 * Real.log (1 - 50 / 100) ∧
     (-100 : ℝ) / 2 * Real.log (1 - 50 / 100) ≤ 50 / 2 * (1 + 50 / 100) :=
   bloom_len_bounds (by norm_num) (by norm_num) (by norm_num) (by norm_num)
 
+/-! ## Why the Bloom rate has a floor under enhanced double hashing (open known finding)
+
+`with_properties` sizes `k` and `m` for independent probe positions.  The hash iterator derives
+all `k` positions of an element from the two residues `h₁ mod m`, `h₂ mod m`: -/
+
+/-- Two elements whose two base hashes agree modulo `m` probe the same `k` positions, whatever
+the hasher and however large `k` is: only `m²` of the `m^k` position tuples are reachable. -/
+theorem bloom_double_hashing_same_positions (hash : List Nat → Nat) (m k x y : Nat)
+    (h1 : hash [0, x] % m = hash [0, y] % m) (h2 : hash [1, x] % m = hash [1, y] % m) :
+    HashIter.positions hash m k x = HashIter.positions hash m k y := by
+  unfold HashIter.positions
+  split
+  · rfl
+  · simp only [h1, h2]
+
+/-- Such a pair is indistinguishable to the filter in every state. -/
+theorem bloom_double_hashing_same_answer (hash : List Nat → Nat) (s : Pds.Bloom.St) (x y : Nat)
+    (h1 : hash [0, x] % s.m = hash [0, y] % s.m) (h2 : hash [1, x] % s.m = hash [1, y] % s.m) :
+    Pds.Bloom.query hash s x = Pds.Bloom.query hash s y := by
+  unfold Pds.Bloom.query
+  rw [bloom_double_hashing_same_positions hash s.m s.k x y h1 h2]
+
+/-- Hence once `y` has been inserted, the never-inserted `x` is a false positive for good — with
+probability about `1/m²` per inserted element under a uniform hasher, i.e. a false-positive
+frequency of about `n/m²` that no number of hash functions reduces (measured: `exp_c07_floor`,
+known finding `C07-bloom-double-hashing-floor`). -/
+theorem bloom_double_hashing_false_positive {hash : List Nat → Nat} {m k : Nat} (hm : 0 < m)
+    {pre post : List Pds.Bloom.Op} {x y : Nat} {s : Pds.Bloom.St}
+    (hpost : ∀ op ∈ post, op ≠ .clear)
+    (hr : Pds.Bloom.run hash m k (pre ++ .insert y :: post) = some s) (hsm : s.m = m)
+    (h1 : hash [0, x] % m = hash [0, y] % m) (h2 : hash [1, x] % m = hash [1, y] % m) :
+    Pds.Bloom.query hash s x = some true := by
+  subst hsm
+  rw [bloom_double_hashing_same_answer hash s x y h1 h2]
+  exact Pds.Props.C01.bloom_no_false_negative hm hpost hr
+
+/-- Non-vacuity: with the sum hasher and 3 bits, elements 1 and 4 probe the same 5 positions. -/
+example : HashIter.positions (fun l => l.sum) 3 5 1 = HashIter.positions (fun l => l.sum) 3 5 4 := by
+  decide
+
 /-! ## Quotient filter clause (from the set refinement of C13) -/
 
 /-- A quotient filter holding `len` pairs answers `true` for exactly `len` of the `N · 2^r`
